@@ -100,7 +100,7 @@ class ZipFileHandler(abc.FileHandler):
         if "w" in mode:
             raise ValueError("Writing to zip files is not supported")
 
-        filename = helpers.normalize_pure_path(filename, base=self.subdir)
+        filename = self.subdir / helpers.normalize_pure_path(filename)
         try:
             return self.__file.open(str(filename), "r")
         except KeyError:
